@@ -73,6 +73,45 @@ class V(Config):
         CALLS.append(("post_init", id(self)))
 
 
+class PX(Config):
+    """A class with an explicit type identifier ..."""
+
+    __xpmid__ = "xv.px"
+
+    a: Param[int]
+    c: Param[Optional[Config]] = None
+
+    def __post_init__(self):
+        CALLS.append(("post_init", id(self)))
+
+
+class QX(PX):
+    """... and a subclass that does not declare its own: its identifier is derived from its own name"""
+
+    pass
+
+
+class N(Config):
+    """Configurations inside nested containers"""
+
+    dl: Param[Dict[str, List[Config]]] = {}
+    ld: Param[List[Dict[str, Config]]] = []
+    ll: Param[List[List[Config]]] = []
+
+    def __post_init__(self):
+        CALLS.append(("post_init", id(self)))
+
+
+class DH(Config):
+    """A parameter whose default is a configuration: every instance gets its own copy of it"""
+
+    child: Param[K2] = K2(a=1)
+    n: Param[int] = 0
+
+    def __post_init__(self):
+        CALLS.append(("post_init", id(self)))
+
+
 def _seven():
     return 7
 
